@@ -115,3 +115,67 @@ mod verif_unchecked {
         }
     }
 }
+
+// C09 bounded stand-in: the borrow-or-copy decoder (parse_string_raw -> parse_string_escaped / parse_escaped_char) as a
+// black box against a reference decoder, on inputs that cross one 32-lane block.
+#[cfg(kani)]
+mod verif_copy_decoder {
+    use super::*;
+    use crate::reader::Read;
+
+    fn error_model<'de, R: Reader<'de>>(_p: &Parser<R>, reason: ErrorCode) -> Error {
+        crate::error::Error::ser_error(reason)
+    }
+
+    /// reference: decode the literal body over the alphabet { a " \ n } (escapes \n \\ \"); None = malformed
+    fn ref_decode(s: &[u8], out: &mut [u8; 40]) -> Option<(usize, usize, bool)> {
+        let mut n = 0;
+        let mut i = 0;
+        let mut esc = false;
+        while i < s.len() {
+            let c = s[i];
+            if c == b'"' { return Some((i + 1, n, esc)); }
+            if c == b'\\' {
+                esc = true;
+                if i + 1 >= s.len() { return None; }
+                let d = s[i + 1];
+                let v = if d == b'n' { b'\n' } else if d == b'\\' { b'\\' } else if d == b'"' { b'"' } else { return None; };
+                out[n] = v; n += 1; i += 2;
+            } else { out[n] = c; n += 1; i += 1; }
+        }
+        None
+    }
+
+    /// parse_string_raw on every 34-byte input over { a " \ n }: accepted iff the reference accepts; same end
+    /// offset; same decoded bytes; Borrowed iff no escape occurred.
+    #[kani::proof]
+    #[kani::unwind(40)]
+    #[kani::stub(crate::parser::Parser::<R>::error, error_model)]
+    #[kani::stub(std::arch::x86_64::_mm_max_epu8, crate::util::verif_models::mm_max_epu8)]
+    fn parse_string_raw_block_edge() {
+        let buf: [u8; 34] = kani::any();
+        let mut i = 0;
+        while i < 34 {
+            kani::assume(buf[i] == b'a' || buf[i] == b'"' || buf[i] == b'\\' || buf[i] == b'n');
+            i += 1;
+        }
+        let mut p = Parser::new(Read::new(&buf[..], false));
+        let mut tmp: Vec<u8> = Vec::with_capacity(128);
+        let mut want = [0u8; 40];
+        let w = ref_decode(&buf[..], &mut want);
+        match p.parse_string_raw(&mut tmp) {
+            Ok(ps) => {
+                let (end, n, esc) = match w { Some(x) => x, None => { assert!(false); return; } };
+                assert!(p.read.index() == end);
+                let borrowed = matches!(ps, ParsedSlice::Borrowed { .. });
+                assert!(borrowed == !esc);
+                let got: &[u8] = &ps;
+                assert!(got.len() == n);
+                let k: usize = kani::any();
+                kani::assume(k < n);
+                assert!(got[k] == want[k]);
+            }
+            Err(_) => assert!(w.is_none()),
+        }
+    }
+}
